@@ -7,11 +7,11 @@ Import ListNotations.
 (* induction principle for program trees *)
 Section LoopInd.
   Variable P : loop -> Prop.
-  Hypothesis Hleaf : forall r d, P (Leaf r d).
+  Hypothesis Hleaf : forall r cs d, P (Leaf r cs d).
   Hypothesis Hnode : forall r kids, Forall P kids -> P (Node r kids).
   Fixpoint loop_ind' (l : loop) : P l :=
     match l with
-    | Leaf r d => Hleaf r d
+    | Leaf r cs d => Hleaf r cs d
     | Node r kids => Hnode r kids ((fix go (ks : list loop) : Forall P ks :=
                                      match ks with
                                      | [] => Forall_nil _
@@ -155,7 +155,7 @@ Open Scope Q_scope.
 
 Fixpoint wfl (l : loop) : Prop :=
   match l with
-  | Leaf r d => (1 <= r)%Z
+  | Leaf r _ d => (1 <= r)%Z
   | Node r kids => (1 <= r)%Z /\ kids <> [] /\ (fix all (ks : list loop) : Prop :=
                                                  match ks with [] => True | k :: t => wfl k /\ all t end) kids
   end.
@@ -199,19 +199,19 @@ Proof.
 Qed.
 
 (* n repetitions of a leaf last exactly n times the leaf: an identity of Q, no accumulation for any n *)
-Lemma rep_leaf_exact (n : Z) (d : Q) : total (wrap_node n [Leaf 1 d]) == inject_Z n * d.
+Lemma rep_leaf_exact (n : Z) (cs : list Z) (d : Q) : total (wrap_node n [Leaf 1 cs d]) == inject_Z n * d.
 Proof. cbn. ring. Qed.
 
 (* ------------------------------------------------------------------------------------------------------------ *)
 (* induction principle for templates *)
 Section PtInd.
   Variable P : pt -> Prop.
-  Hypothesis HAtom : forall k r d, P (PAtom k r d).
-  Hypothesis HTable : forall r chans, P (PTable r chans).
+  Hypothesis HAtom : forall k chs d, P (PAtom k chs d).
+  Hypothesis HTable : forall chans, P (PTable chans).
   Hypothesis HSeq : forall subs, Forall P subs -> P (PSeq subs).
   Hypothesis HRep : forall c b, P b -> P (PRep c b).
   Hypothesis HFor : forall i a b s body, P body -> P (PFor i a b s body).
-  Hypothesis HMap : forall m b, P b -> P (PMap m b).
+  Hypothesis HMap : forall m cm b, P b -> P (PMap m cm b).
   Hypothesis HMulti : forall d subs, Forall P subs -> P (PMulti d subs).
   Hypothesis HArith : forall l r, P l -> P r -> P (PArith l r).
   Hypothesis HWrap : forall b, P b -> P (PWrap b).
@@ -222,12 +222,12 @@ Section PtInd.
     let go := fix go (l : list pt) : Forall P l :=
       match l with [] => Forall_nil _ | c :: t => Forall_cons _ (pt_ind' c) (go t) end in
     match p with
-    | PAtom k r d => HAtom k r d
-    | PTable r chans => HTable r chans
+    | PAtom k chs d => HAtom k chs d
+    | PTable chans => HTable chans
     | PSeq subs => HSeq subs (go subs)
     | PRep c b => HRep c b (pt_ind' b)
     | PFor i a b s body => HFor i a b s body (pt_ind' body)
-    | PMap m b => HMap m b (pt_ind' b)
+    | PMap m cm b => HMap m cm b (pt_ind' b)
     | PMulti d subs => HMulti d subs (go subs)
     | PArith l r => HArith l r (pt_ind' l) (pt_ind' r)
     | PWrap b => HWrap b (pt_ind' b)
@@ -380,6 +380,10 @@ Qed.
 
 (* ------------------------------------------------------------------------------------------------------------ *)
 (* create_program only builds well-formed trees: every repetition count >= 1, no childless inner node *)
+(* where to_waveform does not raise, its duration is wf_duration *)
+Lemma to_wf_some l q : to_wf l = Some q -> wf_duration l = Some q.
+Proof. unfold to_wf. destruct (uniform l); [trivial | discriminate]. Qed.
+
 Definition Lp (cf : cfg) (p : pt) : Prop := forall e kids, cp cf p e = Ok kids -> Forall wfl kids.
 
 Lemma wfl_wrap n kids : (1 <= n)%Z -> Forall wfl kids -> Forall wfl (wrap_node n kids).
@@ -392,7 +396,7 @@ Lemma Forall_concat {A} (P : A -> Prop) (ls : list (list A)) : Forall (Forall P)
 Proof. induction 1; cbn; [constructor | apply Forall_app; split; assumption]. Qed.
 
 Lemma lp_atomic cf p e kids :
-  (do w <- wf_of cf p e; Ok (match w with Some c => [Leaf 1 (cdur c)] | None => [] end)) = Ok kids -> Forall wfl kids.
+  (do w <- wf_of cf p e; Ok (match w with Some c => [Leaf 1 (map fst c) (cdur c)] | None => [] end)) = Ok kids -> Forall wfl kids.
 Proof.
   intros H. apply rbind_ok in H as (w & _ & H). inversion H; subst. destruct w; repeat constructor. cbn. lia.
 Qed.
@@ -426,12 +430,14 @@ Proof.
   - apply rbind_ok in Hc as (kids' & Hk & Hc). inversion Hc; subst. apply wfl_wrap; [lia | eapply IHp; eassumption].
   - apply rbind_ok in Hc as (u & _ & Hc). eapply IHp; eassumption.
   - apply rbind_ok in Hc as (kids' & Hk & Hc). destruct kids'; [inversion Hc; constructor|].
-    destruct (wf_duration _); inversion Hc; subst. repeat constructor. cbn. lia.
+    destruct (to_wf _); inversion Hc; subst. repeat constructor. cbn. lia.
 Qed.
 
 Section Cfg.
 Variable cf : cfg.
 Hypothesis Hcv : forall v, cv cf v = time_of v.
+(* ... and that stops at an atom none of whose channels is played (see C04_agree_refuted_all_channels_dropped) *)
+Hypothesis Hdrop : s_dropped cf = true.
 
 Lemma int_of_qint v n q z : int_of cf v = Ok n -> q == time_of v -> qint q = Some z -> n = z.
 Proof.
@@ -538,11 +544,38 @@ Proof.
   - apply IH; assumption.
 Qed.
 
-Lemma table_wf_den f r e chans w d : (forall v, f v = time_of v) ->
-  table_wf f r e chans = Ok w -> den (PTable r chans) (qenv_of e) = Some d ->
+(* components built for the played channels *)
+Lemma sort_comps_nonempty l : l <> [] -> sort_comps l <> [].
+Proof.
+  destruct l as [|x t]; [congruence|]. intros _ C.
+  assert (In x (sort_comps (x :: t))) by (apply In_sort_comps; left; reflexivity). rewrite C in H. destruct H.
+Qed.
+Lemma In_mk_comps x kc q : In x (mk_comps kc q) -> snd x = q.
+Proof.
+  unfold mk_comps. intros H. apply (proj1 (In_sort_comps _ _)) in H. apply in_map_iff in H as (c & E & _). subst. reflexivity.
+Qed.
+Lemma mk_comps_nonempty kc q : kc <> [] -> mk_comps kc q <> [].
+Proof. intros H. apply sort_comps_nonempty. destruct kc; [congruence | discriminate]. Qed.
+Lemma In_recomp x w q : In x (recomp w q) -> snd x = q.
+Proof. unfold recomp. intros H. apply in_map_iff in H as (c & E & _). subst. reflexivity. Qed.
+Lemma recomp_nonempty w q : w <> [] -> recomp w q <> [].
+Proof. destruct w; [congruence | discriminate]. Qed.
+
+Lemma kept_nonempty {A} (cs : list (option Z)) (ps : list A) : length cs = length ps -> somes cs <> [] ->
+  somes (map (fun ct => match fst ct with Some c => Some (c, snd ct) | None => None end) (combine cs ps)) <> [].
+Proof.
+  revert ps. induction cs as [|c t IH]; intros [|p ps] Hl Hs; try discriminate; [cbn in Hs; congruence|].
+  cbn. destruct c; [discriminate|]. cbn in Hs. apply IH; [cbn in Hl; congruence | exact Hs].
+Qed.
+
+Lemma Forall2_len {A B} (R : A -> B -> Prop) l l' : Forall2 R l l' -> length l = length l'.
+Proof. induction 1; cbn; congruence. Qed.
+
+Lemma table_wf_den f e chans w d : (forall v, f v = time_of v) -> somes (map fst chans) <> [] ->
+  table_wf f e chans = Ok w -> den (PTable chans) (qenv_of e) = Some d ->
   match w with None => d == 0 | Some c => c <> [] /\ Forall (fun x => snd x == d) c end.
 Proof.
-  intros Hf. unfold table_wf. cbn [den]. intros H1 H2. inv_ok.
+  intros Hf Hkept. unfold table_wf. cbn [den]. intros H1 H2. inv_ok.
   rename x into vals, x0 into qvals.
   destruct (forallb _ qvals) eqn:Hvalid; [|discriminate].
   (* relate the evaluated tables *)
@@ -568,7 +601,12 @@ Proof.
     - symmetry; assumption. }
   destruct (Qeqb (f dur) 0) eqn:Ez.
   - inversion H1; subst. rewrite Hf in Ez. apply Qeqb_true in Ez. rewrite <- Hd. exact Ez.
-  - destruct (forallb _ _); inversion H1; subst. split; [discriminate|]. constructor; [cbn; exact Hd | constructor].
+  - match type of H1 with match ?k with _ => _ end = _ => destruct k as [|k0 kt] eqn:Ek end.
+    + exfalso. revert Ek. apply kept_nonempty; [|exact Hkept].
+      rewrite !map_length. apply rall_map_inv in H. apply Forall2_len in H. rewrite !map_length in H.
+      subst ins. rewrite map_length. exact H.
+    + destruct (forallb _ _); inversion H1; subst. split; [apply mk_comps_nonempty; discriminate|].
+      apply Forall_forall. intros x Hx. rewrite (In_mk_comps _ _ _ Hx). exact Hd.
 Qed.
 
 (* ------------------------------------------------------------------------------------------------------------ *)
@@ -600,6 +638,21 @@ Proof.
   intros E. destruct w; cbn; [|intros H; rewrite <- E; exact H].
   intros [Hne Hall]. split; [exact Hne|]. eapply Forall_impl; [|exact Hall]. cbn. intros x Hx. rewrite Hx. exact E.
 Qed.
+
+Lemma wf_ok_mk kc q d : kc <> [] -> q == d -> wf_ok (Some (mk_comps kc q)) d.
+Proof.
+  intros Hne E. split; [apply mk_comps_nonempty; exact Hne|]. apply Forall_forall. intros x Hx.
+  rewrite (In_mk_comps _ _ _ Hx). exact E.
+Qed.
+Lemma wf_ok_recomp w q d : w <> [] -> q == d -> wf_ok (Some (recomp w q)) d.
+Proof.
+  intros Hne E. split; [apply recomp_nonempty; exact Hne|]. apply Forall_forall. intros x Hx.
+  rewrite (In_recomp _ _ _ Hx). exact E.
+Qed.
+Lemma wf_ok_wf_mk kc q d : kc <> [] -> q == d -> wf_ok (wf_mk kc q) d.
+Proof. intros Hne E. destruct kc; [congruence|]. apply wf_ok_mk; [discriminate | exact E]. Qed.
+Lemma is_nil_false {A} (l : list A) : is_nil l = false -> l <> [].
+Proof. destruct l; [discriminate | discriminate]. Qed.
 
 Definition Wp (p : pt) : Prop :=
   forall e w d, wf_of cf p e = Ok w -> den p (qenv_of e) = Some d -> wf_ok w d.
@@ -638,16 +691,20 @@ Proof.
   - (* atom *)
     cbn [den] in Hd. apply obind_some in Hd as (q & Hq & Hd).
     destruct (Qleb 0 q) eqn:Hpos; [|discriminate]. inversion Hd; subst; clear Hd.
+    rewrite Hdrop in Hw. cbn [andb] in Hw. destruct (is_nil (somes chs)) eqn:Hk; [discriminate|]. apply is_nil_false in Hk.
+    rewrite andb_false_r in Hw.
     apply rbind_ok in Hw as (v & Hv & Hw); destruct (eval_qeval _ _ _ Hv) as (q' & Hq' & E);
       rewrite Hq in Hq'; inversion Hq'; subst q'.
     destruct (s_negdur cf && Qltb (cv cf v) 0)%bool; [discriminate|]. rewrite Hcv in Hw.
     destruct k.
-    + destruct (Qltb 0 (time_of v)) eqn:Hlt; inversion Hw; subst; cbn.
-      * split; [discriminate|]. repeat constructor. cbn. symmetry; exact E.
-      * unfold Qltb in Hlt. apply negb_false_iff, Qle_bool_iff in Hlt. apply Qle_bool_iff in Hpos.
+    + destruct (Qltb 0 (time_of v)) eqn:Hlt; inversion Hw; subst.
+      * apply wf_ok_wf_mk; [exact Hk | symmetry; exact E].
+      * cbn. unfold Qltb in Hlt. apply negb_false_iff, Qle_bool_iff in Hlt. apply Qle_bool_iff in Hpos.
         apply Qle_antisym; [rewrite E; exact Hlt | exact Hpos].
-    + inversion Hw; subst. cbn. split; [discriminate|]. repeat constructor. cbn. symmetry; exact E.
-  - (* table *) eapply table_wf_den; [exact Hcv | eassumption | eassumption].
+    + inversion Hw; subst. apply wf_ok_wf_mk; [exact Hk | symmetry; exact E].
+  - (* table *)
+    rewrite Hdrop in Hw. cbn [andb] in Hw. destruct (is_nil (somes (map fst chans))) eqn:Hk; [discriminate|].
+    apply is_nil_false in Hk. eapply table_wf_den; [exact Hcv | exact Hk | eassumption | eassumption].
   - (* map *)
     cbn [den] in Hd. apply obind_some in Hd as (vs & Hvs & Hd). apply rbind_ok in Hw as (e' & He' & Hw).
     eapply IHp; [eassumption|]. erewrite map_env_qenv; eassumption.
@@ -694,12 +751,12 @@ Proof.
       * destruct (isclose (cdur cl) (cdur cr)) eqn:Hc; [|discriminate].
         destruct (_ && _)%bool; inversion Hw; subst; clear Hw.
         pose proof (wf_ok_cdur _ _ Hl) as El. pose proof (wf_ok_cdur _ _ Hr) as Er.
-        split; [discriminate|]. repeat constructor. cbn.
+        apply wf_ok_mk; [unfold union_z; destruct Hl as [Hne _]; destruct cl; [congruence | discriminate]|].
         destruct Hcases as [[E _]|[E E0]]; [rewrite El, E; reflexivity|].
         assert (Hz : cdur cl == 0) by (rewrite El; exact E0).
         pose proof (isclose_zero _ _ Hc Hz) as Hz'. rewrite El, E, E0, <- Er, Hz'. reflexivity.
       * inversion Hw; subst; clear Hw. pose proof (wf_ok_cdur _ _ Hr) as Er. cbn in Hl.
-        split; [discriminate|]. repeat constructor. cbn. rewrite Er.
+        apply wf_ok_recomp; [destruct Hr; assumption|]. rewrite Er.
         destruct Hcases as [[E [E1|E1]]|[E E0]].
         -- rewrite E, E1. reflexivity.
         -- rewrite E, Hl, E1. reflexivity.
@@ -710,7 +767,7 @@ Proof.
   - (* wrap *)
     cbn [den] in Hd. apply rbind_ok in Hw as (w0 & Hw0 & Hw). pose proof (IHp _ _ _ Hw0 Hd) as H0.
     inversion Hw; subst; clear Hw. destruct w0 as [c|]; [|exact H0].
-    split; [discriminate|]. repeat constructor. cbn. apply wf_ok_cdur; exact H0.
+    apply wf_ok_recomp; [destruct H0; assumption | apply wf_ok_cdur; exact H0].
   - (* constr *) cbn [den] in Hd. apply rbind_ok in Hw as (u & _ & Hw). eapply IHp; eassumption.
   - (* single *) cbn [den] in Hd. eapply IHp; eassumption.
 Qed.
@@ -722,7 +779,7 @@ Definition Rp (p : pt) : Prop :=
   forall e kids d, cp cf p e = Ok kids -> den p (qenv_of e) = Some d -> total kids == d.
 
 Lemma cp_atomic p e kids d :
-  (do w <- wf_of cf p e; Ok (match w with Some c => [Leaf 1 (cdur c)] | None => [] end)) = Ok kids ->
+  (do w <- wf_of cf p e; Ok (match w with Some c => [Leaf 1 (map fst c) (cdur c)] | None => [] end)) = Ok kids ->
   den p (qenv_of e) = Some d -> total kids == d.
 Proof.
   intros H Hd. apply rbind_ok in H as (w & Hw & H). inversion H; subst; clear H.
@@ -804,11 +861,56 @@ Proof.
     pose proof (IHp _ _ _ Hk Hd) as Ht. pose proof (Lp_all cf p e kids' Hk) as Hl.
     destruct kids' as [|k t]; [inversion Hc; subst; exact Ht|].
     assert (Hw : wfl (Node 1 (k :: t))) by (apply wfl_node; repeat split; [lia | discriminate | exact Hl]).
-    destruct (wf_duration_is_loop_duration _ Hw) as (q & Hq & E). rewrite Hq in Hc. inversion Hc; subst; clear Hc.
+    destruct (wf_duration_is_loop_duration _ Hw) as (q & Hq & E).
+    destruct (to_wf (Node 1 (k :: t))) as [q'|] eqn:Hq'; [|discriminate]. apply to_wf_some in Hq'. rewrite Hq in Hq'.
+    inversion Hq'; subst q'. inversion Hc; subst; clear Hc.
     unfold total at 1. cbn [map qsum loop_duration]. rewrite E. cbn [loop_duration].
     change (qsum (map loop_duration (k :: t))) with (total (k :: t)). rewrite Ht. ring.
 Qed.
 
+
+End Cfg.
+
+(* ------------------------------------------------------------------------------------------------------------ *)
+(* channel mappings have no influence on the denoted duration and on the symbolic duration *)
+Lemma map_resolve {B} (g : pt -> B) f subs :
+  Forall (fun c => g (resolve f c) = g c) subs -> map g (map (resolve f) subs) = map g subs.
+Proof. intros H. rewrite map_map. induction H; cbn; congruence. Qed.
+
+Lemma snd_resolve_table f (chans : list (option Z * list expr)) :
+  map snd (map (fun cts => (map_ch f (fst cts), snd cts)) chans) = map snd chans.
+Proof. rewrite map_map. reflexivity. Qed.
+
+Lemma den_resolve : forall p f e, den (resolve f p) e = den p e.
+Proof.
+  induction p using pt_ind'; intros f e; cbn [resolve den]; try reflexivity; try (rewrite ?IHp; reflexivity).
+  - rewrite snd_resolve_table. reflexivity.
+  - rewrite (map_resolve (fun c => den c e)); [reflexivity|]. eapply Forall_impl; [|exact H]. intros c Hc. apply Hc.
+  - repeat (match goal with |- obind ?o _ = obind ?o _ => destruct o; [cbn [obind]|reflexivity] end).
+    destruct (_ =? _)%Z; [reflexivity|]. f_equal. f_equal. apply map_ext. intros v. apply IHp.
+  - destruct (oall _); [|reflexivity]. cbn. apply IHp.
+  - rewrite (map_resolve (fun c => den c e)); [reflexivity|]. eapply Forall_impl; [|exact H]. intros c Hc. apply Hc.
+  - rewrite IHp1, IHp2. reflexivity.
+Qed.
+
+Lemma sym_resolve : forall p f e, sym (resolve f p) e = sym p e.
+Proof.
+  induction p using pt_ind'; intros f e; cbn [resolve sym]; try reflexivity; try (rewrite ?IHp; reflexivity).
+  - rewrite snd_resolve_table. reflexivity.
+  - rewrite (map_resolve (fun c => sym c e)); [reflexivity|]. eapply Forall_impl; [|exact H]. intros c Hc. apply Hc.
+  - repeat (match goal with |- rbind ?o _ = rbind ?o _ => destruct o; [cbn [rbind]|reflexivity|reflexivity] end).
+    destruct (Qeqb _ _); [reflexivity|].
+    destruct (_ <? _)%Z; [reflexivity|]. f_equal. f_equal. apply map_ext. intros k.
+    repeat (match goal with |- rbind ?o _ = rbind ?o _ => destruct o; [cbn [rbind]|reflexivity|reflexivity] end). apply IHp.
+  - destruct (map_env e m); try reflexivity. cbn. apply IHp.
+  - destruct d; [reflexivity|]. destruct subs as [|c t]; [reflexivity|]. cbn [map]. inversion H; subst. auto.
+  - rewrite IHp1, IHp2. reflexivity.
+Qed.
+
+Section Cfg2.
+Variable cf : cfg.
+Hypothesis Hcv : forall v, cv cf v = time_of v.
+Hypothesis Hdrop : s_dropped cf = true.
 
 (* ------------------------------------------------------------------------------------------------------------ *)
 (* the three program-side views and the denoted duration, for every configuration that compares decimal values *)
@@ -823,7 +925,8 @@ Theorem program_views_agree_cfg p e d :
   end.
 Proof.
   intros Hd o Hc. unfold create_program in Hc. apply rbind_ok in Hc as (kids & Hk & Hc). inversion Hc; subst; clear Hc.
-  pose proof (Rp_all p e kids d Hk Hd) as Ht. pose proof (Lp_all cf p e kids Hk) as Hl.
+  rewrite <- (den_resolve p idf) in Hd.
+  pose proof (Rp_all cf Hcv Hdrop _ e kids d Hk Hd) as Ht. pose proof (Lp_all cf _ e kids Hk) as Hl.
   destruct kids as [|k t].
   - cbn in Ht. symmetry. exact Ht.
   - assert (Hw : wfl (Node 1 (k :: t))) by (apply wfl_node; repeat split; [lia | discriminate | exact Hl]).
@@ -833,7 +936,7 @@ Proof.
     + destruct (wf_duration_is_loop_duration _ Hw) as (q & Hq & E). exists q. split; [exact Hq | rewrite E; exact Hld].
     + rewrite sum_pieces_is_duration. exact Hld.
 Qed.
-End Cfg.
+End Cfg2.
 
 Lemma qenv_decimalize e : qenv_of (decimalize e) = qenv_of e.
 Proof.
@@ -852,7 +955,7 @@ Qed.
 
 Fixpoint loop_same (a b : loop) : bool :=
   match a, b with
-  | Leaf r d, Leaf r' d' => (r =? r')%Z && Qsame d d'
+  | Leaf r cs d, Leaf r' cs' d' => (r =? r')%Z && zs_eqb cs cs' && Qsame d d'
   | Node r ks, Node r' ks' =>
       (r =? r')%Z && (fix go (x y : list loop) : bool :=
                         match x, y with
@@ -870,10 +973,17 @@ Definition loops_same : list loop -> list loop -> bool :=
     | _, _ => false
     end.
 
+Lemma zs_eqb_eq : forall a b, zs_eqb a b = true -> a = b.
+Proof.
+  induction a as [|x a IH]; intros [|y b]; cbn; intros H; try discriminate; [reflexivity|].
+  apply andb_prop in H as [H1 H2]. apply Z.eqb_eq in H1. subst. f_equal. apply IH; exact H2.
+Qed.
+
 Lemma loop_same_eq : forall a b, loop_same a b = true -> a = b.
 Proof.
-  induction a using loop_ind'; intros [r' d'|r' ks']; cbn; intros Hs; try discriminate.
-  - apply andb_prop in Hs as [H1 H2]. apply Z.eqb_eq in H1. apply Qsame_eq in H2. subst. reflexivity.
+  induction a using loop_ind'; intros [r' cs' d'|r' ks']; cbn; intros Hs; try discriminate.
+  - apply andb_prop in Hs as [H1 H2]. apply andb_prop in H1 as [H1 H3].
+    apply Z.eqb_eq in H1. apply Qsame_eq in H2. apply zs_eqb_eq in H3. subst. reflexivity.
   - apply andb_prop in Hs as [H1 H2]. apply Z.eqb_eq in H1. subst r'. f_equal.
     revert ks' H2. induction H as [|k t Hk Ht IH]; intros [|k' t'] H2; try discriminate; [reflexivity|].
     apply andb_prop in H2 as [H2 H3]. f_equal; [apply Hk; exact H2 | apply IH; exact H3].
@@ -887,14 +997,14 @@ Qed.
 
 (* both readings accept and build the same program *)
 Definition g_view (p : pt) (e : env) : bool :=
-  match cp real p e, cp lax p e with
+  match cp real (resolve idf p) e, cp lax (resolve idf p) e with
   | Ok a, Ok b => loops_same a b
   | _, _ => false
   end.
 
-Lemma g_view_eq p e kids : g_view p e = true -> cp real p e = Ok kids -> cp lax p e = Ok kids.
+Lemma g_view_eq p e kids : g_view p e = true -> cp real (resolve idf p) e = Ok kids -> cp lax (resolve idf p) e = Ok kids.
 Proof.
-  unfold g_view. intros H Hc. rewrite Hc in H. destruct (cp lax p e); try discriminate.
+  unfold g_view. intros H Hc. rewrite Hc in H. destruct (cp lax (resolve idf p) e); try discriminate.
   apply loops_same_eq in H. subst. reflexivity.
 Qed.
 
@@ -909,16 +1019,3 @@ Proof.
   rewrite (g_view_eq _ _ _ Hg Hk). exact H.
 Qed.
 
-(* the program side for the code itself (binary comparisons), under the reading guard *)
-Theorem program_views_agree p e d :
-  g_view p e = true -> den p (qenv_of e) = Some d ->
-  forall o, create_program real p e = Ok o ->
-  match o with
-  | None => d == 0
-  | Some prog => loop_duration prog == d
-                 /\ (exists q, wf_duration prog = Some q /\ q == d)
-                 /\ sum_pieces 1 prog == d
-  end.
-Proof.
-  intros Hg Hd o Hc. apply (program_views_agree_cfg lax lax_cv p e d Hd). apply create_view; assumption.
-Qed.
